@@ -111,7 +111,7 @@ def gen(run, tier):
         show("result", &r);
         assert!(matches!(&r, Err(Error::UnexpectedValueType(v, _)) if {s.same('v')}));
         std::mem::forget(r);"""
-        hs.append(Harness(f"wrongkind_{ident(t)}_from_{tag}", body,
+        hs.append(Harness(f"wrongkind_{ident(t)}_from_{tag}", body, mandatory=not ("Vec<" in t or "BTreeMap" in t),
                           meta={"conversion": f"{t}::try_from(Value::{tag})", "domain": s.descr}))
     # ---- 6. Option<Value>
     hs.append(Harness("option_value", """
